@@ -332,7 +332,10 @@ lys_compile_iffeature(const struct ly_ctx *ctx, const struct lysp_qname *qname, 
             checkversion = 1;
             continue;
         } else if (c[i] == ')') {
-            j--;
+            if (--j < 0) {
+                /* closing parenthesis without an opening one, the final counts could still match */
+                break;
+            }
             continue;
         } else if (isspace(c[i])) {
             checkversion = 1;
